@@ -418,4 +418,4 @@ for (nd, ns, tier, lite) in [(0, 1, 'quick', False), (1, 0, 'quick', False), (1,
                   "one VisualSort::predict_with_scene call from an arbitrary valid tracker state: records echo the detections; attachment by appearance exactly under the use thresholds / collected "
                   "features / visual threshold / min votes, greatest weight wins, else positional maximum-weight fallback, else a new track; truthful voting type; galleries bounded; only this scene's epoch advances",
                   "%d detections, %d stored tracks (1-2 stored observations, features present or not), 1 shard, IoU + Euclidean mode, thresholds from small grids; geometry numbers, feature distances, packing and Kalman prediction uninterpreted" % (nd, ns),
-                  FUNCS, spec_calls=_calls, replay=replay_step, max_paths=400000, timeout=3000, opts={'map_order': 'insertion'}))
+                  FUNCS, spec_calls=_calls, replay=replay_step, max_paths=400000, timeout=(6000 if tier == 'thorough' else 3000), opts={'map_order': 'insertion'}))
